@@ -421,9 +421,71 @@ func c11Expect(c *c11Case, src string) (toks []c11Tok, usedKeyword, usedBacktrac
 	return toks, usedKeyword, usedBacktrack, bigRune, false
 }
 
+// reFoldSensitive reports whether the expression uses an escape whose meaning under case folding
+// is not documented (negated escapes, \w, properties other than categories/scripts/Any); the
+// regular-expression generator avoids them in (?i) contexts, the global caseInsensitive option
+// needs the same exclusion.
+func reFoldSensitive(n *respec.Node, named map[string]*respec.Node, depth int) bool {
+	if n == nil || depth > 20 {
+		return false
+	}
+	bad := func(esc string) bool {
+		if esc == "d" || esc == "s" {
+			return false
+		}
+		if strings.HasPrefix(esc, "p{") && !strings.HasPrefix(esc, "p{^") {
+			name := strings.TrimSuffix(strings.TrimPrefix(esc, "p{"), "}")
+			for _, ok := range append(append([]string{"Any"}, reCategories...), reScripts...) {
+				if name == ok {
+					return false
+				}
+			}
+		}
+		return true
+	}
+	switch n.Op {
+	case "esc":
+		return bad(n.Name)
+	case "ref":
+		return reFoldSensitive(named[n.Name], named, depth+1)
+	case "class":
+		var cls func(c *respec.Class) bool
+		cls = func(c *respec.Class) bool {
+			if c == nil {
+				return false
+			}
+			for _, it := range c.Items {
+				if it.K == "esc" && bad(it.Esc) {
+					return true
+				}
+			}
+			for _, m := range c.Minus {
+				if cls(m) {
+					return true
+				}
+			}
+			return false
+		}
+		return cls(n.Cls)
+	}
+	for _, s := range n.Sub {
+		if reFoldSensitive(s, named, depth+1) {
+			return true
+		}
+	}
+	return false
+}
+
 func c11Unit(c c11Case, name string) (batch.Unit, bool) {
 	if len(c.Rules) == 0 || c.NSC < 1 {
 		return batch.Unit{}, false
+	}
+	if c.fold() {
+		for i := range c.Rules {
+			if c.Rules[i].RE != nil && reFoldSensitive(c.Rules[i].RE, c.Named, 0) {
+				return batch.Unit{}, false
+			}
+		}
 	}
 	for _, r := range c.Rules {
 		if r.Keyword == "" && (r.RE == nil || reMinLen(r.RE, c.Named, 0) == 0) {
